@@ -191,6 +191,14 @@ func extractTarDirectory(dirPath, dirName string, r io.Reader, buf []byte, prese
 			}
 			err = writeFile(filePath, tr, header.FileInfo().Mode(), buf)
 		case tar.TypeDir:
+			if filePathRel == "." {
+				// The extraction directory was created in advance with
+				// default permissions. If it is a still empty directory,
+				// create it again with the recorded ones.
+				if info, statErr := os.Lstat(filePath); statErr == nil && info.IsDir() {
+					_ = os.Remove(filePath) // fails if not empty
+				}
+			}
 			err = os.MkdirAll(filePath, header.FileInfo().Mode())
 		case tar.TypeLink:
 			// NOTE: ORAS does not generate hard links when creating tarballs.
